@@ -103,6 +103,10 @@ def _fatal(ex, st, args, n):
     return None
 
 
+R.models['_Py_FatalErrorFunc'] = _fatal
+R.assumed['_Py_FatalErrorFunc'] = "does not return; reaching it is reported as an obligation"
+
+
 @R.model('PyErr_Occurred', "returns the pending exception class or NULL")
 def _occ(ex, st, args, n):
     return st.err
@@ -315,6 +319,7 @@ def _indirect(ex, st, args, n):
     e = ex.fresh('err_indirect', B64)
     st.err = e
     st.assume(z3.Implies(res == BV(0, 64), e != BV(0, 64)))
+    st.assume(z3.Implies(res != BV(0, 64), Ctx(ex, {}, st).valid(res, 16)))    # a non-NULL result is an object
     return res
 
 
